@@ -530,6 +530,10 @@ def enc_fresh(ctx: Ctx, chk) -> None:
         want = got  # the gateway's own MessageSchema instance, whatever the attribute is called
     if got == want and cn.canon(c.args[1]) == msg:
         chk.ok(rule, key, f"handler(self, {msg}, <buffer>, {want})", ctx.loc(send_raw, c))
+    elif (mh_ := _re.match(r"^self\.(\w+)\((\w+)\)$", got)) and send_raw.cls is not None and send_raw.cls.find_method(mh_.group(1)) is not None and any(isinstance(x_, ast.Return) and x_.value is not None and (isinstance(x_.value, ast.Subscript) or (isinstance(x_.value, ast.Call) and isinstance(x_.value.func, ast.Attribute) and x_.value.func.attr in ("get", "pop", "setdefault"))) for x_ in ctx.own_nodes(send_raw.cls.find_method(mh_.group(1)))):
+        # a helper of the gateway that can return an encoding it kept from an earlier call
+        h_ = send_raw.cls.find_method(mh_.group(1))
+        chk.refute(rule, key, f"the encoded line handed on comes from {h_.qualname}, which can return a stored encoding (`return <container>[...]`): a message object that was sent before and changed since is written in its old encoding", h_.where)
     elif not _re.search(r"\.dumps?\(", got):
         # not an encode call at all (a helper that could not be written out, a stored bound method ...): no verdict
         raise AnalysisError(f"ENC-FRESH-1: the encoded line handed on is `{got[:60]}` - its origin is not an encode call visible in Gateway.send (helper not written out)")
